@@ -46,7 +46,7 @@ if "<!-- R3NUM:BEGIN -->" in s and (st or cx or xc or bl):
         for v in ms.values(): c[v["status"]] = c.get(v["status"], 0) + 1
         un = cx.get("unchanged", {})
         out.append(f"* **Counterexample search** (`tools/cex_selftest.py`, part 2): of {len(ms)} mutants, {c.get('confirmed', 0)} get a verifier counterexample CONFIRMED on the mutated compiled function (reality == prediction, obligation fails for every admissible specification interpretation), "
-                   f"{c.get('candidate-not-confirmed', 0)} only an unconfirmed candidate (not reported), {c.get('none', 0) + c.get('not-runnable', 0)} none within the bound (16-bit counter overflow at 2^15 rows, out-of-bounds accesses, dtype-only changes, larger windows). "
+                   f"{c.get('candidate-not-confirmed', 0)} only an unconfirmed candidate (not reported), {c.get('none', 0)} none within the bound (16-bit counter overflow at 2^15 rows, out-of-bounds accesses, dtype-only changes, larger windows), {c.get('not-runnable', 0)} are mutants of object methods / extracted loops, which have no stand-alone native call (their failing obligation is reported with the bounded tier's input or `no-failing-input-found`). "
                    f"On the unchanged tree: {un.get('statuses')}; confirmed only for the recorded known finding ({', '.join(x.split('::')[-1] for x in un.get('confirmed_for_a_recorded_known_finding', [])) or '-'}); confirmed elsewhere: {un.get('confirmed_on_unchanged_tree') or 'none'}.")
     if xc:
         out.append(f"* **Encoding cross-check** (`pyvc.cex --xcheck`, part 3): {sum(r.get('agree', 0) for r in xc)} paths of the bounded execution executed natively agree with the engine's prediction, {sum(len(r.get('disagree', [])) for r in xc)} disagree, over {sum(1 for r in xc if r.get('paths_executed'))} function instantiations ({sum(1 for r in xc if r.get('status') == 'not-runnable')} not runnable stand-alone: object methods, nested overload bodies).")
